@@ -31,11 +31,17 @@ ASSUMPTIONS = ["numpy float64 true division is the correctly rounded IEEE-754 bi
 RESIDUE = ["float division inside binnify: exactness below 2^53 is a theorem (Flocq); operands >= 2^53 are outside the claim"]
 
 
-def impl_binnify(sizes, b):
+ARG_TYPES = [("int64", "int"), ("int32", "int64"), ("uint64", "int32"), ("float64", "float"), ("int64", "uint64"), ("uint32", "int")]
+
+
+def impl_binnify(sizes, b, cs_dtype="int64", b_type="int"):
+    """cs_dtype / b_type: how the lengths and the width are handed over (a Series of another numeric dtype, a numpy scalar, a float
+    holding an integer) - what a bin table says does not depend on it"""
     from cooler.util import binnify
     names = names_for(len(sizes))
-    cs = pd.Series(index=names, data=list(sizes), dtype=np.int64)
-    df = binnify(cs, b)
+    cs = pd.Series(index=names, data=list(sizes), dtype=getattr(np, cs_dtype))
+    conv = {"int": int, "float": float}.get(b_type) or getattr(np, b_type)
+    df = binnify(cs, conv(b))
     idx = {n: i for i, n in enumerate(names)}
     # also check the categorical carries the given order
     cats = list(df["chrom"].cat.categories)
@@ -140,6 +146,23 @@ def run(ctx):
         case = {"fn": "binnify", "sizes": sizes, "binsize": b}
         ctx.case(case, nontrivial=any(L > b or L % b for L in sizes), kind="binnify")
         ctx.compare("binnify", case, [list(r) for r in im], [list(r) for r in mo])
+        if not oracle_binnify(sizes, b, im):
+            ctx.fail(case, {"got": im[:20]}, None)
+
+    # the same tables with the lengths / the width handed over as other numeric types (values below 2^31 fit all of them)
+    for k, ((sizes, b), mo) in enumerate(zip(cases, model)):
+        if k % (3 if thorough else 11):
+            continue
+        cs_dtype, b_type = ARG_TYPES[(k // (3 if thorough else 11)) % len(ARG_TYPES)]
+        case = {"fn": "binnify", "sizes": sizes, "binsize": b, "chromsizes_dtype": cs_dtype, "binsize_type": b_type}
+        ctx.case(case, nontrivial=any(L > b or L % b for L in sizes), kind="binnify:argument-types")
+        ctx.dist["binnify argument types:" + cs_dtype + "/" + b_type] += 1
+        try:
+            im = impl_binnify(sizes, b, cs_dtype, b_type)
+        except Exception as e:
+            ctx.fail(case, {"error": repr(e)[:300]}, None)
+            continue
+        ctx.compare("binnify (argument types)", case, [list(r) for r in im], [list(r) for r in mo])
         if not oracle_binnify(sizes, b, im):
             ctx.fail(case, {"got": im[:20]}, None)
 
@@ -372,7 +395,7 @@ def replay(ctx, case):
         bs = get_binsize(df)
         return bs is None or oracle_truthful(blocks, int(bs))
     if case["fn"] == "binnify" or case["fn"].startswith("makebins"):
-        im = impl_binnify(case["sizes"], case["binsize"])
+        im = impl_binnify(case["sizes"], case["binsize"], case.get("chromsizes_dtype", "int64"), case.get("binsize_type", "int"))
         return oracle_binnify(case["sizes"], case["binsize"], im)
     blocks = [[tuple(r) for r in blk] for blk in case["blocks"]]
     df = table_from_blocks(blocks)
